@@ -1101,7 +1101,12 @@ impl Serialize for Value {
             }
             ValueInner::Map(map) => {
                 let mut m = serializer.serialize_map(Some(map.len()))?;
-                for (key, val) in map.iter() {
+                #[allow(unused_mut)]
+                let mut entries: Vec<_> = map.iter().collect();
+                // Same as in `format_map`: deterministic output if preserve_order is not used
+                #[cfg(not(feature = "preserve_order"))]
+                entries.sort_by(|a, b| a.0.cmp(b.0));
+                for (key, val) in entries {
                     m.serialize_entry(key, val)?;
                 }
                 m.end()
